@@ -21,8 +21,9 @@
 #define QMAX (NLINES + 2)
 typedef struct S_struct_2eFIX8_3a_3aLogger_3a_3aLogElement LE;
 static struct S_struct_2eVLogger the_lg;
-/* abstract FIFO of copied elements */
-static LE q_store[QMAX]; static uint32_t q_head, q_tail, q_released;
+/* abstract FIFO: conveys (value, level, text empty or not) of every element in order; the element handed to the consumer is
+   rebuilt by the real LogElement constructor in one static slot (the loop holds one popped element at a time) */
+static uint32_t q_val[QMAX], q_lvl[QMAX]; static uint8_t q_emp[QMAX]; static LE pop_slot; static uint32_t q_head, q_tail, q_released;
 /* bookkeeping */
 static uint32_t n_sub;                    /* lines submitted so far (ids 1..NLINES in submission order) */
 static uint8_t sub_enabled[NLINES + 1], sub_ret[NLINES + 1], sub_queued[NLINES + 1], sub_before_stop[NLINES + 1];
@@ -35,7 +36,7 @@ uint8_t cx_act[2 * NLINES + 8]; uint32_t cx_nact; uint8_t cx_en[NLINES + 1]; uin
 uint8_t st_q_try_push(void *q, LE *src)
 {
   __CPROVER_assert(q_tail < QMAX, "abstract FIFO large enough");
-  vf_le_copy(&q_store[q_tail], src); q_tail++;
+  q_val[q_tail] = vf_le_val(src); q_lvl[q_tail] = vf_le_level(src); q_emp[q_tail] = vf_le_empty(src) & 1; q_tail++;
   if (cur_sub) sub_queued[cur_sub] = 1;
   return 1;                               /* uMPMC_Ptr_Queue::push always returns true (C30) */
 }
@@ -44,7 +45,8 @@ uint8_t st_q_try_pop(void *q, LE **out)
 {
   if (running) sched(0);                /* producers may act between the flag read and the pop */
   if (q_head == q_tail) return 0;
-  *out = &q_store[q_head++]; return 1;
+  vf_le_make(&pop_slot, q_val[q_head], q_lvl[q_head], q_emp[q_head]); q_head++;
+  *out = &pop_slot; return 1;
 }
 void st_q_release(void *q, LE *e) { q_released++; }
 /* the sleep after an empty pop: idle spinning is stuttering, so a producer step is taken here whenever one is left (fairness) */
